@@ -860,6 +860,20 @@ func (c *evalCtx) call(n *Node) SV {
 		}
 		return SV{T: t, Sort: sig.Ret, Ty: sig.RetT}
 	}
+	if ce, ok := c.env.(interface {
+		CoinSpec(name string, args []SV) (SV, bool)
+	}); ok {
+		switch n.Name {
+		case "dcValid", "cValid", "dcAmt", "cAmt", "feeFor":
+			var as []SV
+			for _, a := range n.Args {
+				as = append(as, c.eval(a))
+			}
+			if sv, ok := ce.CoinSpec(n.Name, as); ok {
+				return sv
+			}
+		}
+	}
 	if ret, ok := e.funRet[n.Name]; ok {
 		// an uninterpreted function declared by an assumed contract (intrinsic)
 		return SV{T: app(n.Name, args...), Sort: ret}
